@@ -244,7 +244,17 @@ func VH_TXN() {
 	ts := make([]*ttxn, nt)
 	total := 0
 	for i := range ts {
-		sc := tlibrary[lib0+vf.Choose("script", 0, libn-1)]
+		var sc tscript
+		if fix := vf.Param("LIBFIX", 0); fix > 0 {
+			// fixed scripts: decimal digits of LIBFIX (e.g. 23: long reader + multi-key writer)
+			d := fix
+			for k := 0; k < nt-1-i; k++ {
+				d /= 10
+			}
+			sc = tlibrary[d%10]
+		} else {
+			sc = tlibrary[lib0+vf.Choose("script", 0, libn-1)]
+		}
 		ts[i] = &ttxn{sc: sc, id: i}
 		total += 1 + len(sc.ops)
 	}
